@@ -7,6 +7,7 @@ import (
 	"fmt"
 	"io"
 	"net/netip"
+	"slices"
 	"strings"
 	"sync/atomic"
 
@@ -785,6 +786,12 @@ func relayErrClause(err error) string {
 // ---------------------------------------------------------------------------
 // One case
 
+func sortedCuts(c []int64) []int64 {
+	out := append([]int64(nil), c...)
+	slices.Sort(out)
+	return out
+}
+
 func sum(a []int) (s int) {
 	for _, x := range a {
 		s += x
@@ -813,8 +820,8 @@ func runCase(c *Case) *result {
 		r.fail("config-error", "c2s", "%v", err)
 		return res
 	}
-	t1.c2s.cuts, t1.c2s.every = c.C2S.Cuts, c.C2S.Every
-	t1.s2c.cuts, t1.s2c.every = c.S2C.Cuts, c.S2C.Every
+	t1.c2s.cuts, t1.c2s.every = sortedCuts(c.C2S.Cuts), c.C2S.Every
+	t1.s2c.cuts, t1.s2c.every = sortedCuts(c.S2C.Cuts), c.S2C.Every
 	if !c.T1.Seg {
 		t1.c2s.everyFrom, t1.s2c.everyFrom = c.T1.firstRegionC2S(), c.T1.firstRegionS2C()
 	}
